@@ -134,7 +134,7 @@ pub fn small_cfg(rng: &mut Rng) -> TreeCfg {
 ///   three-level tree.
 pub fn generate(ctx: &mut Ctx, allow_filters: bool) -> Vec<Value> {
     let mut cases = Vec::new();
-    let n = ctx.budget(36, 900);
+    let n = ctx.budget(30, 900);
     for i in 0..n {
         let mut rng = ctx.rng.fork();
         let cfg = small_cfg(&mut rng);
@@ -199,6 +199,8 @@ pub fn generate(ctx: &mut Ctx, allow_filters: bool) -> Vec<Value> {
         }
     }
     cases.extend(sweep(ctx));
+    cases.extend(matrix());
+    cases.extend(unknown_types(ctx));
     cases
 }
 
@@ -259,7 +261,7 @@ fn sweep(ctx: &mut Ctx) -> Vec<Value> {
             for kind in OBJ_FAULTS {
                 // Quick tier: every fault kind once per object class, rotating.
                 k += 1;
-                if !thorough && (k + ctx.seed) % 3 != 0 { continue }
+                if !thorough && (k + ctx.seed) % 4 != 0 { continue }
                 let mut tree = base.clone();
                 let Some(f) = obj_fault(&mut tree.world, ca, 0, idx, kind, T0) else { continue };
                 let extra = json!({"base": to_json(&Scenario {
@@ -291,6 +293,89 @@ fn sweep(ctx: &mut Ctx) -> Vec<Value> {
         let mut tree = base.clone();
         if let Some(f) = tal_key_fault(&mut tree.world, 0) {
             cases.push(case_json("sweep-ta", &tree, &opts, vec![run_spec(T0, tree.serve(0), Order::Sorted)], &[f], json!(null)));
+        }
+    }
+    cases
+}
+
+/// The explicit matrix object kind × certificate-level fault, always run:
+/// ROA, ASPA, router certificate, child CA certificate, GBR × revoked, CRL
+/// URI mismatch, expired, not yet valid, bad signature, overclaim, on the
+/// fixed tree with ASPA and BGPsec enabled. Two runs over the same server
+/// content: the first takes the fetched path, the second (same manifest
+/// bytes) the stored one.
+fn matrix() -> Vec<Value> {
+    let mut cases = Vec::new();
+    let base = sweep_tree();
+    let opts = EngineOpts { enable_aspa: true, enable_bgpsec: true, ..Default::default() };
+    let base_scn = Scenario {
+        world: base.world.clone(), opts: opts.clone(),
+        runs: vec![run_spec(T0, base.serve(0), Order::Sorted)],
+    };
+    let ca = "t0c0";
+    let objs = base.world.ca(ca).unwrap().versions[0].objects.clone();
+    for (idx, obj) in objs.iter().enumerate() {
+        for kind in ["revoked", "crluri", "expired", "notyet", "sigflip", "overclaim"] {
+            let mut tree = base.clone();
+            // "Not yet valid" has to hold for the later run as well.
+            let now = if kind == "notyet" { T0 + 600 } else { T0 };
+            let Some(f) = obj_fault(&mut tree.world, ca, 0, idx, kind, now) else { continue };
+            let extra = json!({"base": to_json(&base_scn), "only_object": obj.name, "ca": ca});
+            cases.push(case_json("sweep-obj", &tree, &opts, vec![
+                run_spec(T0, tree.serve(0), Order::Sorted),
+                run_spec(T0 + 600, tree.serve(0), Order::Sorted),
+            ], &[f], extra));
+        }
+    }
+    cases
+}
+
+/// The processing order that walks the entries of `ca`'s manifest sorted by
+/// name, except that `name` comes at position `pos`.
+fn order_with(tree: &Tree, ca: &str, name: &str, pos: usize) -> (Order, usize) {
+    let spec = tree.world.ca(ca).unwrap();
+    let mut names: Vec<String> = vec![spec.crl.clone()];
+    names.extend(spec.versions[0].objects.iter().map(|o| o.name.clone()));
+    names.sort_by(|a, b| a.as_bytes().cmp(b.as_bytes()));
+    let s = names.iter().position(|n| n == name).expect("entry");
+    let mut perm: Vec<usize> = (0..names.len()).filter(|i| *i != s).collect();
+    let pos = pos.min(perm.len());
+    perm.insert(pos, s);
+    (Order::Table(vec![perm]), names.len())
+}
+
+/// Listed, present, hash-matching files of types routinator does not
+/// process (`.tak`, `.spl`, `.txt`), at every position of the processing
+/// order, in a CA with a child (the child certificate and its subtree are
+/// siblings) and in a leaf CA. They contribute nothing and harm nobody.
+fn unknown_types(ctx: &mut Ctx) -> Vec<Value> {
+    let mut cases = Vec::new();
+    let base = sweep_tree();
+    let opts = EngineOpts { enable_aspa: true, enable_bgpsec: true, ..Default::default() };
+    let base_scn = Scenario {
+        world: base.world.clone(), opts: opts.clone(),
+        runs: vec![run_spec(T0, base.serve(0), Order::Sorted)],
+    };
+    let thorough = !ctx.quick();
+    for (ca, name) in [("t0c0", "x.tak"), ("t0c0c0", "m.spl"), ("t0", "notes.txt")] {
+        let mut tree = base.clone();
+        tree.world.ca_mut(ca).unwrap().versions[0].objects.push(
+            raw(name, b"0\x03\x02\x01\x2a well-formed enough, unknown type")
+        );
+        let (_, n) = order_with(&tree, ca, name, 0);
+        for pos in 0..n {
+            // Quick tier: every position for the CA with a child, every
+            // other one elsewhere.
+            if !thorough && ca != "t0c0" && (pos + ctx.seed as usize) % 2 == 1 { continue }
+            let (order, _) = order_with(&tree, ca, name, pos);
+            let f = Applied {
+                what: format!("unknown-type {ca}/{name} at {pos}/{n}"), ca: ca.into(), only_object: None,
+            };
+            let extra = json!({"base": to_json(&base_scn), "only_object": name, "ca": ca});
+            cases.push(case_json("sweep-obj", &tree, &opts, vec![
+                run_spec(T0, tree.serve(0), order.clone()),
+                run_spec(T0 + 600, tree.serve(0), order),
+            ], &[f], extra));
         }
     }
     cases
